@@ -201,6 +201,7 @@ def rleAppend (a b : List (Nat × Nat)) : List (Nat × Nat) :=
 /-- merge adjacent bursts with the same D/C level -/
 def canon : List Ev → List CEv
   | [] => []
+  | .w _ _ [] :: es => canon es          -- zero bytes = zero transfers: nothing on the wire
   | .w dc c bs :: es =>
     let c' := if c = 0 then 1 else c
     match canon es with
